@@ -186,3 +186,5 @@ INFO = dict(
     outside=["strings longer than L", "patterns outside the catalogue", "regex features interegular does not support (look-around, back-references)"],
     assumptions=["CPython re.fullmatch is the reference semantics"],
 )
+
+INFO["technique"] = "z3 sequence/regex theory: the automaton returned by the real interegular_to_wfsa is unrolled for a symbolic string and compared with a z3.Re built from CPython's regex parse tree; all strings <= L over the charset; models replayed"
